@@ -83,6 +83,7 @@ func SpecEofIdx(lines [][]byte, i int) int {
 //@   results r
 //@   modifies fsWrites
 //@   checks[C13,C16] one-file-never-stops-the-walk: implies(called(processFile), r == nil)
+//@   checks[C13,C16] the-walk-is-never-cut-short: implies(err == nil, r == nil)
 //@   checks[C13,C15] same-treatment-as-a-single-run: implies(called(processFile), argOf(processFile, 0) == path && argOf(processFile, 1) == checkOnly)
 //@   checks[C13] every-file-is-offered: implies(err == nil && called(IsDir) && !resultOf(IsDir, 0), called(processFile))
 //@   checks[C13,C16] a-failure-is-never-forgotten: implies(old(failed), failed)
